@@ -23,7 +23,7 @@ PForms == UNION {{p, B("mul", y, p), B("div", y, p), TOp("mul", <<TInt(7), y, p>
                   B("sub", y, p), U("sin", p), B("pow", p, TInt(2)), B("pow", p, TRat(1, 2)), B("div", p, y), B("mul", p, B("pow", y, TRat(-3, 2)))} : p \in PPow}
 Pool == Atoms \cup D1 \cup D2
 
-PS == SetToSeq(Sub(Pool, 1000, 100000) \cup Sub(PForms, 800, 100000))
+PS == SetToSeq(Sub(Pool, 1000, 6000) \cup Sub(PForms, 800, 2500))
 Batch == 100
 NB == (Len(PS) + Batch - 1) \div Batch
 Points == {<<TDbl(1, 3, -1), TDbl(1, 1, -2)>>, <<TDbl(-1, 3, -2), TDbl(1, 1, 1)>>} \cup (IF Thorough THEN {<<TDbl(1, 5, -3), TDbl(-1, 7, -2)>>} ELSE {})
